@@ -201,6 +201,47 @@ var opmapOracle = map[string][]string{
 		`{$0} SIMILAR TO {rewrite[*→%,?→_]($1)}`},
 }
 
+// stripTextConvs removes conversions between string and the driver's own named string types from a key: the
+// text is the same (string(likePattern(x)) is x).
+func stripTextConvs(s string) string {
+	for {
+		i := strings.Index(s, "conv:")
+		for i >= 0 {
+			rest := s[i+len("conv:"):]
+			j := strings.Index(rest, "(")
+			if j > 0 && (rest[:j] == "string" || strings.HasPrefix(rest[:j], "driver.")) {
+				break
+			}
+			n := strings.Index(s[i+1:], "conv:")
+			if n < 0 {
+				i = -1
+			} else {
+				i = i + 1 + n
+			}
+		}
+		if i < 0 {
+			return s
+		}
+		open := i + strings.Index(s[i:], "(")
+		depth, end := 0, -1
+		for k := open; k < len(s); k++ {
+			if s[k] == '(' {
+				depth++
+			} else if s[k] == ')' {
+				depth--
+				if depth == 0 {
+					end = k
+					break
+				}
+			}
+		}
+		if end < 0 {
+			return s
+		}
+		s = s[:i] + s[open+1:end] + s[end+1:]
+	}
+}
+
 // SQL-OPMAP (C03): operator → SQL mapping table agreement.
 func ruleSQLOPMAP(c *Ctx, r *Report) {
 	const rule = "SQL-OPMAP"
@@ -227,7 +268,7 @@ func ruleSQLOPMAP(c *Ctx, r *Report) {
 		}
 		got := map[string]bool{}
 		for _, row := range rows {
-			got[c.bindSkeleton(row.Str, e)] = true
+			got[stripTextConvs(c.bindSkeleton(row.Str, e))] = true
 		}
 		want := opmapOracle[op]
 		var gs []string
